@@ -204,10 +204,11 @@ func sliceSources(v ssa.Value, seen map[ssa.Value]bool, elems *[]ssa.Value, appe
 
 func runC20(c *Ctx) {
 	p, r := c.P, c.R
-	r.Explanation = "Decides that Broker.Reopen reaches every node and carries every failure: the per-graph reopen is applied to every value of the whole graphs map (directly or through a snapshot slice filled by a full range over the map), the per-graph reopen ranges the roots with a callback that always continues and starts the per-node walk at each pipeline's root, the per-node step invokes Reopen on the node and then visits every successor (loops whose only exits are exhaustion or an error return); and no error on the chain Node.Reopen -> doReopen -> reopen -> Broker.Reopen is dropped or replaced, with the all-nil path returning nil. sync.Map.Range visiting every key is trusted (A4). Every nil return of Broker.Reopen walked all graphs; errors merged into a variable that is later overwritten are reported path-sensitively. Also: every successful return of the per-node step lies behind the successor loop, and no error of foreign origin is handed to multierror.Append unwrapped (it flattens, and an empty *multierror.Error vanishes). C20.commit: registrations store the chain linked from the currently registered nodes. C20.carry (strict): an error returned only under a condition other than its nil test counts as dropped. C20.all also: graphMap.Range is sync.Map.Range. C20.all follows a wrapper: when the walk lives in a helper of the Broker, the helper is examined and the exported method owes Reopen:own-walk."
+	r.Explanation = "Decides that Broker.Reopen reaches every node and carries every failure: the per-graph reopen is applied to every value of the whole graphs map (directly or through a snapshot slice filled by a full range over the map), the per-graph reopen ranges the roots with a callback that always continues and starts the per-node walk at each pipeline's root, the per-node step invokes Reopen on the node and then visits every successor (loops whose only exits are exhaustion or an error return); and no error on the chain Node.Reopen -> doReopen -> reopen -> Broker.Reopen is dropped or replaced, with the all-nil path returning nil. sync.Map.Range visiting every key is trusted (A4). Every nil return of Broker.Reopen walked all graphs; errors merged into a variable that is later overwritten are reported path-sensitively. Also: every successful return of the per-node step lies behind the successor loop, and no error of foreign origin is handed to multierror.Append unwrapped (it flattens, and an empty *multierror.Error vanishes). C20.commit: registrations store the chain linked from the currently registered nodes. C20.carry (strict): an error returned only under a condition other than its nil test counts as dropped. C20.all also: graphMap.Range is sync.Map.Range. C20.all follows a wrapper: when the walk lives in a helper of the Broker, the helper is examined and the exported method owes Reopen:own-walk. C20.recover: a recovered panic on the reopen chain reaches the error result."
 	r.NotDecided = []string{"sync.Map.Range visiting every key (A4)", "behaviour of the nodes' own Reopen"}
 	c.errControls()
 	c.errStrict = true // "carries that failure"
+	c.ruleRecoverResults("C20.recover", []string{PkgRoot}, false)
 	reopen := c.Fn("C20.anchor", PkgRoot, "Broker", "Reopen")
 	if reopen == nil {
 		return
